@@ -5,9 +5,11 @@
     ADD SUB MUL DIV, AND IOR XOR SHL SHR ASHR, EQ GE GT LE LT, NEG NOT, MOVE, EXCHANGE, CONVERT,
     LOAD, STORE, DECLARE, gate applications (modifiers, expression parameters, qubits), MEASURE,
     RESET, DELAY, FENCE, HALT NOP WAIT, LABEL JUMP JUMP-WHEN JUMP-UNLESS, PRAGMA, INCLUDE,
-    SET-/SHIFT-FREQUENCY/-PHASE/-SCALE, SWAP-PHASES — at token level (the lexer is C05-C07's).
-    CALL, PULSE, CAPTURE, RAW-CAPTURE, DEFGATE, DEFCAL, DEFCIRCUIT, DEFFRAME, DEFWAVEFORM and the
-    program container are covered by the round-trip oracle on the real implementation only. *)
+    SET-/SHIFT-FREQUENCY/-PHASE/-SCALE, SWAP-PHASES, PULSE / CAPTURE / RAW-CAPTURE (NONBLOCKING
+    prefix, frame identifiers, waveform invocations with named parameters), CALL (identifier,
+    memory-reference and immediate arguments) — at token level (the lexer is C05-C07's).
+    Excluded by named decidable classes (open findings): [rawcapture_region_i],
+    [call_immediate_then_i]. *)
 From Coq Require Import List NArith ZArith Bool.
 From QV Require Import Model.ParsePanic Model.PrintParse Proofs.PrintParseProofs.
 Import ListNotations.
@@ -18,6 +20,13 @@ Theorem C02_expression_roundtrip :
   forall (e : expr) (rest : list tok), wf_expr e = true -> stop rest ->
     p_expr (print_e e ++ rest) = Ok e rest.
 Proof. exact p_expr_rt. Qed.
+
+(** Refined: the identifier [i] may follow a printed expression unless the print ends in a real
+    number literal (what RAW-CAPTURE's [<duration> <memory reference>] needs). *)
+Theorem C02_expression_roundtrip_refined :
+  forall (e : expr) (rest : list tok), wf_expr e = true -> okG (ends_num e) rest -> no_op rest ->
+    p_expr (print_e e ++ rest) = Ok e rest.
+Proof. exact p_expr_rt_gen. Qed.
 
 (** Instructions: every well-formed fragment instruction, printed and followed by a line end,
     parses back to exactly that instruction, consuming exactly its own tokens. *)
@@ -38,6 +47,19 @@ Corollary C02_print_stable :
   forall l : list instr, forallb wf_instr l = true ->
     forall l', p_program Repaired (print_program l) = Ok l' [] -> print_program l' = print_program l.
 Proof. intros l H l' H'. rewrite (program_rt l H) in H'. now injection H' as <-. Qed.
+
+(** Open finding [rawcapture-region-i]: the class excluded by [wf_instr] is not vacuous — inside
+    it the printed tokens do not parse back (everything else about the instruction is
+    well-formed); outside it, with the same region name, they do. *)
+Theorem C02_rawcapture_region_i_refuted :
+  exists (d : expr) (m : memref),
+    let i := IRawCapture true ([QFixed 0], 0%N) d m in
+    rawcapture_region_i d m = true /\ wf_expr d = true /\
+    (p_program Repaired (print_instr i) <> Ok [i] []) /\
+    wf_instr (IRawCapture true ([QFixed 0], 0%N) EPi m) = true.
+Proof.
+  exists (ENum false (VInt 2)), (IdRes RI, 0%N). vm_compute. repeat split; discriminate.
+Qed.
 
 (** The instance checker run on the implementation's output: a fragment case with code 0 means the
     tokens the implementation printed are the model's print of a well-formed instruction, they
@@ -64,4 +86,22 @@ Example C02_nonvacuous :
                    TId (IdRes RPi); TRParen; TOp OSlash; TLParen; TInt 2; TOp OCaret;
                    TVar (IdName 1); TRParen; TRParen; TInt 0; TId (IdName 2)] /\
   p_program Repaired (print_program [g; m; d]) = Ok [g; m; d] [].
+Proof. vm_compute. repeat split. Qed.
+
+(** Non-vacuity for the Quil-T / CALL part: a NONBLOCKING PULSE with an extended waveform name and
+    two named parameters, a CAPTURE with a bare waveform, a RAW-CAPTURE into region [i] whose
+    duration does not end in a number, a CALL with all three argument kinds. *)
+Example C02_nonvacuous_quilt :
+  let w := {| wname := IdName 0; wext := Some (IdName 1);
+              wparams := [(IdName 2, EInfix (ENum false (VInt 2)) OStar EPi); (IdName 3, ENum true (VLex 0))] |} in
+  let p := IPulse false ([QFixed 0; QVar (IdName 4)], 0%N) w in
+  let c := ICapture true ([QFixed 1], 1%N) {| wname := IdName 0; wext := None; wparams := [] |} (IdName 5, 0%N) in
+  let r := IRawCapture false ([QFixed 0], 0%N) (EInfix (ENum false (VInt 2)) OStar EPi) (IdRes RI, 3%N) in
+  let k := ICall (IdName 6) [CAId (IdRes RI); CAImm false (VInt 2); CAMem (IdName 5, 1%N); CAImm true (VLex 1); CAId (IdRes RI)] in
+  forallb wf_instr [p; c; r; k] = true /\
+  print_instr p = [TNonBlocking; TCmd CPulse; TInt 0; TId (IdName 4); TString 0; TId (IdName 0);
+                   TOp OSlash; TId (IdName 1); TLParen; TId (IdName 2); TColon; TInt 2; TOp OStar;
+                   TId (IdRes RPi); TComma; TId (IdName 3); TColon; TFloat (FLex 0); TId (IdRes RI);
+                   TRParen] /\
+  p_program Repaired (print_program [p; c; r; k]) = Ok [p; c; r; k] [].
 Proof. vm_compute. repeat split. Qed.
